@@ -813,6 +813,33 @@ func (c *c06Check) runHist(seed, run uint64, t *tape.Tape, s *C06Stats, lines *[
 			if strings.HasSuffix(ctx, "$") || t.Chance(1, 5) {
 				chainArg = "(" + arg() + ")"
 			}
+			if (ctx == "@" || ctx == "=@" || ctx == "&@" || ctx == "~@" || ctx == "$") && t.Chance(1, 4) {
+				// spy-first chain: the elements are a spy object and pool values; the spy defines the
+				// very property the chain calls, as a method that hands everything it received
+				// (`\_`, `\0`) to the simulated callee. Whatever the calls on the later elements do,
+				// those values are watched from then on - the chain evaluates its arguments once and
+				// hands the same objects to every element's call.
+				names := c.propsFor(recv.val)
+				if len(names) > 0 {
+					pn := names[t.Intn(len(names))]
+					nslot++
+					var args []string
+					for i := t.Pick(3, 3, 1); i > 0; i-- {
+						args = append(args, arg())
+					}
+					if t.Chance(1, 4) {
+						args = append(args, "**"+pick().name)
+					}
+					spy := fmt.Sprintf("{%q: m{S(%d, \\_, \\0); 1}}", pn, nslot)
+					order := fmt.Sprintf("[%s, %s, %s]", spy, recv.name, pick().name)
+					if t.Chance(1, 3) {
+						order = fmt.Sprintf("[%s, %s, %s]", recv.name, spy, pick().name)
+					}
+					opName = "spy:" + ctx
+					src = fmt.Sprintf("%s%s%s%s(%s)", order, ctx, chainArg, pn, strings.Join(args, ", "))
+					break
+				}
+			}
 			if t.Chance(2, 3) {
 				src = fmt.Sprintf("%s%s%s%s", recv.name, ctx, chainArg, callee())
 			} else {
